@@ -183,29 +183,32 @@ def pton6Go : P6 → Bytes → Option P6
         | none => none
       else none
 
+/-- where the loop starts: a leading `:` must be the first half of `::` and is skipped -/
+def p6start (src : Bytes) : Option Bytes :=
+  match src with
+  | 58 :: 58 :: r => some (58 :: r)
+  | 58 :: _ => none
+  | _ => some src
+
+/-- after the loop: a pending group is stored -/
+def p6fin (st : P6) : Option Bytes :=
+  if st.sawX then
+    if st.out.length + 2 > 16 then none else some (st.out ++ [st.val / 256, st.val % 256])
+  else some st.out
+
 def pton6 (src0 : Bytes) : Option Bytes :=
-  let src := cstr src0
-  -- leading `::` needs special handling
-  let start : Option Bytes :=
-    match src with
-    | 58 :: 58 :: r => some (58 :: r)
-    | 58 :: _ => none
-    | _ => some src
-  match start with
+  match p6start (cstr src0) with
   | none => none
   | some s =>
     match pton6Go ⟨[], none, s, false, 0, 0⟩ s with
     | none => none
     | some st =>
-      let fin : Option Bytes :=
-        if st.sawX then
-          if st.out.length + 2 > 16 then none else some (st.out ++ [st.val / 256, st.val % 256])
-        else some st.out
-      match fin with
+      match p6fin st with
       | none => none
       | some out =>
         match st.colonp with
         | some cp =>
+          -- `::` seen: shift what follows it to the end, zero-fill the gap
           if out.length = 16 then none
           else some (out.take cp ++ List.replicate (16 - out.length) 0 ++ out.drop cp)
         | none => if out.length ≠ 16 then none else some out
